@@ -20,8 +20,8 @@ Inductive act := ASet (v : Z) | AValue | AWatch.
 
 Inductive pc :=
 | PIdle                               (* goroutine not spawned yet *)
-| PGate                               (* spawned; waiting for its start gate *)
-| PReady                              (* about to start the first action of its program *)
+| PGate                               (* spawned; waiting for its start gate, then as PReady *)
+| PReady                              (* about to start the next action of its program *)
 | PSetCalled (v : Z)                  (* inside Set, before the Swap *)
 | PSetSwapped (old : option nat)      (* Swap done, it returned [old]; about to close old's channel *)
 | PSetClosed                          (* about to return from Set *)
@@ -53,14 +53,12 @@ Inductive lab :=
 | LCallValue (t : nat) | LRetValue (t : nat) (v : Z) (closed : bool)
 | LPanic (t : nat)            (* a recovered run-time panic; the model never produces it *)
 (* internal steps *)
-| TPass (t : nat)             (* the start gate is open *)
 | TSwap (t : nat)             (* Set: oldInner := w.p.Swap(newInner) *)
 | TClose (t : nat)            (* Set: if oldInner != nil { close(oldInner.c) } *)
 | TLoad (t : nat)             (* Value: inner := w.p.Load() *)
 | TCas (t : nat)              (* Value: w.p.CompareAndSwap(nil, emptyInner) *)
 | TReload (t : nat)           (* Value: inner = w.p.Load() after a failed CAS *)
-| TPoll (t : nat)             (* harness: select { case <-c: closed default: open } *)
-| TWake (t : nat).            (* observer: <-c returns because c is closed *)
+| TPoll (t : nat).            (* harness: select { case <-c: closed default: open } *)
 
 (* ---- helpers ---- *)
 Definition getth (s : st) (t : nat) : option thread := nth_error (ths s) t.
@@ -77,6 +75,21 @@ Definition gate_open (s : st) (x : thread) : bool :=
 
 Definition close_cell (c : cell) : cell := mkCell (c_val c) true (c_set c).
 
+Definition cell_closed (s : st) (k : nat) : bool :=
+  match nth_error (cells s) k with Some c => c_closed c | None => false end.
+
+(* the goroutine is about to start the next action of its program: it has passed its start gate
+   (the gate is open), or it has finished the previous action, or (observer loop) the channel it
+   waits on is closed.  Passing the gate / waking up is not a step of its own: it is merged with
+   the invocation event that follows. *)
+Definition ready (s : st) (x : thread) : bool :=
+  match t_pc x with
+  | PReady => true
+  | PGate => gate_open s x
+  | PWait k => cell_closed s k
+  | _ => false
+  end.
+
 (* ---- the transition function ---- *)
 Definition step (s : st) (l : lab) : option st :=
   match l with
@@ -85,20 +98,13 @@ Definition step (s : st) (l : lab) : option st :=
       | Some x => match t_pc x with PIdle => Some (setth s t (set_pc x PGate)) | _ => None end
       | None => None
       end
-  | TPass t =>
-      match getth s t with
-      | Some x => match t_pc x with
-                  | PGate => if gate_open s x then Some (setth s t (set_pc x PReady)) else None
-                  | _ => None end
-      | None => None
-      end
   | LRelease g =>
       if g <? length (gates s) then Some (with_gates s (upd (gates s) g true)) else None
   | LCallSet t v =>
       match getth s t with
-      | Some x => match t_pc x, t_prog x with
-                  | PReady, ASet v' :: _ => if Z.eqb v v' then Some (setth s t (set_pc x (PSetCalled v))) else None
-                  | _, _ => None end
+      | Some x => match t_prog x with
+                  | ASet v' :: _ => if ready s x && Z.eqb v v' then Some (setth s t (set_pc x (PSetCalled v))) else None
+                  | _ => None end
       | None => None
       end
   | TSwap t =>
@@ -134,9 +140,9 @@ Definition step (s : st) (l : lab) : option st :=
       end
   | LCallValue t =>
       match getth s t with
-      | Some x => match t_pc x, t_prog x with
-                  | PReady, AValue :: _ | PReady, AWatch :: _ => Some (setth s t (set_pc x PValCalled))
-                  | _, _ => None end
+      | Some x => match t_prog x with
+                  | AValue :: _ | AWatch :: _ => if ready s x then Some (setth s t (set_pc x PValCalled)) else None
+                  | _ => None end
       | None => None
       end
   | TLoad t =>
@@ -203,24 +209,13 @@ Definition step (s : st) (l : lab) : option st :=
                   | _ => None end
       | None => None
       end
-  | TWake t =>
-      match getth s t with
-      | Some x => match t_pc x with
-                  | PWait k =>
-                      match nth_error (cells s) k with
-                      | Some c => if c_closed c then Some (setth s t (set_pc x PReady)) else None
-                      | None => None
-                      end
-                  | _ => None end
-      | None => None
-      end
   | LPanic _ => None
   | LQuiesce => None     (* replaced by [qstep] below *)
   end.
 
 (* ---- label enumeration for the matcher ---- *)
 Definition tau_labels (s : st) : list lab :=
-  flat_map (fun t => [TPass t; TSwap t; TClose t; TLoad t; TCas t; TReload t; TPoll t; TWake t])
+  flat_map (fun t => [TSwap t; TClose t; TLoad t; TCas t; TReload t; TPoll t])
            (seq 0 (length (ths s))).
 
 (* visible labels that the scenario's goroutines (not the controller) can emit *)
@@ -228,11 +223,12 @@ Definition thread_visible (s : st) (t : nat) : list lab :=
   match getth s t with
   | Some x =>
       match t_pc x with
-      | PReady => match t_prog x with
-                  | ASet v :: _ => [LCallSet t v]
-                  | AValue :: _ | AWatch :: _ => [LCallValue t]
-                  | [] => []
-                  end
+      | PReady | PGate | PWait _ =>
+          match t_prog x with
+          | ASet v :: _ => [LCallSet t v]
+          | AValue :: _ | AWatch :: _ => [LCallValue t]
+          | [] => []
+          end
       | PSetClosed => [LRetSet t]
       | PValPolled k b => match nth_error (cells s) k with Some c => [LRetValue t (c_val c) b] | None => [] end
       | _ => []
